@@ -416,6 +416,17 @@ def main():
         proof = proof_step(pid, cfg, log)
         if not proof['ok']:
             broken.append(("proof", proof['error']))
+        elif tier == 'thorough':
+            # independent re-check of the compiled property file and everything it depends on
+            t1 = time.time()
+            p = sh(f"timeout 3000 coqchk -silent -o -Q theories Arche Arche.Properties.{pid}",
+                   cwd=os.path.join(ROOT, "coq"), check=False, timeout=3100)
+            out = p.stdout + p.stderr
+            proof['coqchk'] = {'exit': p.returncode, 'seconds': round(time.time() - t1, 1),
+                               'axioms': (re.search(r'\* Axioms:(.*?)\n\s*\n', out, re.S) or [None, '?'])[1].strip()}
+            if p.returncode != 0 or 'Axioms: <none>' not in out:
+                # stdlib axioms would be listed here; none is expected (see DESIGN.md 13.4)
+                broken.append(("coqchk", out[-3000:]))
 
     # 3. correspondence
     evals = 0
@@ -520,6 +531,7 @@ def main():
             "checker_cmd": f"coq_makefile + make (full .vo); coqc theories/Properties/{pid}.v; grep for Admitted/Axiom/...",
             "trusted_base": cfg.get('trusted_base', []) + ["Print Assumptions: " + "; ".join(proof['assumptions'] or ["(none recorded)"])],
             "proof_files": proof['files'],
+            "coqchk": proof.get('coqchk', 'thorough tier only'),
             "evaluations": evals, "distinct_nontrivial": len(nontrivial),
             "rule": cfg.get('rule', ''),
             "samples": samples or [["(no history of this property's own kind in this run)"]],
